@@ -2,6 +2,7 @@ Require Extraction.
 Require Import ExtrOcamlBasic.
 From LH Require Import Base.Bytes Base.Res Model.AnnLexer Model.AnnAst Model.AnnParser Model.AnnPrint Spec.AnnGrammar.
 Extraction "c16model.ml" extract_anchor kind_code fuel_of ann_parse_line parse_type parse_fragment type_convert_str
-  show_type show_type_plain show_line show_line_plain doc_type doc_stat embed_one embed_stat abs flat
+  show_type show_type_plain show_line show_line_plain doc_type doc_stat embed_type embed_type_plain embed_line
+  embed_line_plain abs flat
   enum_with_comment stat_nested_array has_nested_array has_fun has_const has_paren_item has_union_under_array
-  has_union_in_union parse_fragment_spec frag_cont_after_bad frag_lines_desync clear_aligned.
+  has_union_in_union parse_fragment_spec frag_cont_after_bad frag_has_empty_alias clear_aligned.
